@@ -230,7 +230,7 @@ fn search_server(seed: u64, budget: usize) -> Option<Value> {
 // ---------------------------------------------------------------------------------------------
 // C06: chains.  calls: 0 = plain, 1 = oneway, 2 = more, 3 = oneway + more (owed nothing).  script[i] for non-oneway call i:
 // (k continuing replies, final kind: 0 = success, 1 = declared error)
-fn run_chain(flags: &[u8], script: &[(usize, u8)], cuts: &[usize]) -> (Vec<String>, Vec<String>) {
+fn run_chain(flags: &[u8], script: &[(usize, u8)], cuts: &[usize], pending: &[usize]) -> (Vec<String>, Vec<String>) {
     use futures_util::stream::StreamExt;
     let mut wire = Vec::new();
     let mut expected = Vec::new();
@@ -261,6 +261,8 @@ fn run_chain(flags: &[u8], script: &[(usize, u8)], cuts: &[usize]) -> (Vec<Strin
     expected.push("later:424242".into());
     let mut calls_expected = Vec::new();
     let sock = ScriptedSocket::new(&wire, cuts);
+    // reads (by ordinal) that return Pending once before they deliver: the reply stream is polled again, never dropped
+    sock.0.borrow_mut().pending_reads = pending.to_vec();
     let script_h = sock.0.clone();
     let mut conn = zlink_core::Connection::new(sock);
     let mk = |i: usize, f: u8| Call::new(M::B { a: i as u32 }).set_oneway(f == 1 || f == 3).set_more(f == 2 || f == 3);
@@ -306,9 +308,10 @@ fn search_chain(seed: u64, budget: usize) -> Option<Value> {
         let flags: Vec<u8> = (0..n).map(|_| rng.below(4) as u8).collect();
         let script: Vec<(usize, u8)> = (0..n).map(|_| (rng.below(3), rng.below(2) as u8)).collect();
         let cuts: Vec<usize> = match rng.below(3) { 0 => vec![], 1 => vec![1 + rng.below(9)], _ => (0..3).map(|_| 1 + rng.below(50)).collect() };
-        let (exp, got) = run_chain(&flags, &script, &cuts);
+        let pending: Vec<usize> = if rng.below(2) == 0 { vec![] } else { (0..1 + rng.below(4)).map(|_| rng.below(12)).collect() };
+        let (exp, got) = run_chain(&flags, &script, &cuts, &pending);
         if exp != got {
-            return Some(json!({"kind":"chain","flags":flags,"script":script,"cuts":cuts,"expected":exp,"got":got}));
+            return Some(json!({"kind":"chain","flags":flags,"script":script,"cuts":cuts,"pending_reads":pending,"expected":exp,"got":got}));
         }
     }
     None
@@ -1121,8 +1124,9 @@ fn main() {
             let flags: Vec<u8> = w["flags"].as_array().unwrap().iter().map(|x| x.as_u64().unwrap() as u8).collect();
             let script: Vec<(usize, u8)> = w["script"].as_array().unwrap().iter().map(|x| (x[0].as_u64().unwrap() as usize, x[1].as_u64().unwrap() as u8)).collect();
             let cuts: Vec<usize> = w["cuts"].as_array().unwrap().iter().map(|x| x.as_u64().unwrap() as usize).collect();
-            let (exp, got) = run_chain(&flags, &script, &cuts);
-            println!("flags (0 plain,1 oneway,2 more) = {flags:?} script = {script:?}");
+            let pending: Vec<usize> = w.get("pending_reads").and_then(|p| p.as_array()).map(|a| a.iter().map(|x| x.as_u64().unwrap() as usize).collect()).unwrap_or_default();
+            let (exp, got) = run_chain(&flags, &script, &cuts, &pending);
+            println!("flags (0 plain,1 oneway,2 more) = {flags:?} script = {script:?} reads that are Pending once = {pending:?}");
             println!("expected = {exp:?}");
             println!("got      = {got:?}");
             if exp != got {
